@@ -125,8 +125,36 @@ def gen(rng, nm, na):
     for j, c in enumerate(cases):
         if j % 5 == 0:
             reclose_then_own_line(rng, c)
-    for _ in range(na):
+    for j in range(na):
         c = ctl.gen_scenario(rng, max_lines=5, ctrl="main")
+        if j % 5 == 3:
+            # targeted: every device reaches the controller through an ICT line of its own; one line fault; the ICT line of an
+            # intelligent switch on the faulted line is out of service around the increment in which the repaired section is put back
+            from . import c16_timing
+            spec, devices = c16_timing.build_case_spec(rng)
+            fd = spec["feeders"][0]
+            nl = len(fd["parent"])
+            fl = rng.randrange(1, nl) if nl > 1 else 0
+            ps_ = net.build(dict(spec, exact=True))
+            sws = [f"I{d.name}" for d in ps_.get_comp(f"F0L{fl}").disconnectors if f"I{d.name}" in devices]
+            if sws:
+                dtq = F(rng.choice([F(1, 2), F(1, 4)])); k0 = rng.randint(2, 4); rep = rng.choice([F(2), F(3)])
+                kr = k0 + math.ceil(rep / dtq)
+                faults = {str(k0): [[f"F0L{fl}", str(rep)]]}
+                faults.setdefault(str(max(1, kr - rng.choice([1, 2]))), []).append([f"IL{devices.index(rng.choice(sws))}", str(rng.choice([F(2), F(3)]))])
+                Tq = F(spec["ctrl"]["T"])
+                cases.append({"kind": "ctl", "spec": spec, "faults": faults, "dt": str(dtq), "n_inc": kr + int((Tq + 6) / dtq) + 10})
+                continue
+        if j % 5 == 2:
+            # targeted (oracle only): the main controller has a software failure (cured by a new signal that takes longer than
+            # one increment) some increments before a line fault; its recovery time must not keep the sub-controllers' timers running
+            dtq = F(c["dt"])
+            c["spec"]["ctrl"]["new_signal"] = str(dtq * rng.choice([2, 3]))
+            k0 = rng.randint(1, 3)
+            lines = [nm for fl in c["faults"].values() for nm, _ in fl]
+            c["faults"] = {str(k0): [["C1", "sw"]], str(k0 + rng.randint(1, 4)): [[rng.choice(lines), str(rng.choice([F(1), F(2)]))]]}
+            cases.append(c)
+            continue
         if rng.random() < 0.4:
             c["spec"]["ctrl"]["nodev"] = missing_devices(rng, c["spec"])
         if rng.random() < 0.7:
